@@ -4,9 +4,14 @@ import re
 from mirlib import short, show
 
 SEQ = {'tuple', 'preceded', 'terminated', 'delimited', 'pair', 'separated_pair', 'permutation'}
-CHARCLASS = {'satisfy', 'take_while', 'take_while1', 'take_till', 'take_till1', 'take_until', 'one_of', 'none_of', 'digit1', 'digit0', 'hex_digit1',
-             'multispace1', 'multispace0', 'alpha1', 'alphanumeric1', 'char', 'anychar', 'not_line_ending', 'line_ending', 'newline', 'space0', 'space1', 'is_not', 'is_a', 'escaped'}
-NULLABLE_CC = {'take_while', 'take_till', 'digit0', 'multispace0', 'space0', 'not_line_ending'}
+CHARCLASS = {'satisfy', 'take_while', 'take_while1', 'take_till', 'take_till1', 'take_until', 'take_until1', 'one_of', 'none_of', 'digit1', 'digit0', 'hex_digit1', 'hex_digit0',
+             'oct_digit0', 'oct_digit1', 'multispace1', 'multispace0', 'alpha0', 'alpha1', 'alphanumeric0', 'alphanumeric1', 'char', 'anychar', 'not_line_ending', 'line_ending',
+             'newline', 'crlf', 'tab', 'space0', 'space1', 'is_not', 'is_a', 'escaped', 'take', 'take_while_m_n', 'rest'}
+NULLABLE_CC = {'take_while', 'take_till', 'digit0', 'hex_digit0', 'oct_digit0', 'alpha0', 'alphanumeric0', 'multispace0', 'space0', 'not_line_ending', 'rest'}
+# combinators that apply one inner parser and only transform / constrain its result
+TRANSPARENT = {'all_consuming': 0, 'consumed': 0, 'into': 0, 'context': 1, 'map_parser': 0, 'flat_map': 0, 'cut': 0, 'complete': 0}
+MANY0 = {'many0', 'fold_many0', 'many0_count'}
+MANY1 = {'many1', 'fold_many1', 'many1_count', 'count'}
 
 
 class N:
@@ -62,7 +67,20 @@ def build(e, unknown):
             while a[0] in ('ref', 'deref', 'cast'):
                 a = a[1] if a[0] != 'cast' else a[3]
             return N('tag', text=a[1] if a[0] == 'str' else '?', extra=f)
-        if f in ('opt', 'many0', 'many1', 'recognize', 'peek', 'not', 'complete', 'cut'):
+        if f in MANY0:
+            return N('many0', [build(args[0], unknown)], extra=f)
+        if f in MANY1:
+            return N('many1', [build(args[0], unknown)], extra=f)
+        if f == 'many_m_n' and len(args) >= 3:
+            lo = args[0]
+            return N('many0' if lo == ('const', 0) else 'many1', [build(args[2], unknown)], extra=f)
+        if f == 'cond' and len(args) >= 2:
+            return N('opt', [build(args[1], unknown)], extra=f)
+        if f == 'success':
+            return N('seq', [], extra=f)
+        if f in TRANSPARENT and len(args) > TRANSPARENT[f]:
+            return N('map', [build(args[TRANSPARENT[f]], unknown)], extra=f)
+        if f in ('opt', 'recognize', 'peek', 'not'):
             return N(f, [build(args[0], unknown)])
         if f in ('map', 'map_res', 'map_opt', 'value', 'verify'):
             inner = args[0] if f != 'value' else args[1]
@@ -129,7 +147,7 @@ def roots_of(body):
             a = cs.arg(0)
             while a[0] in ('ref', 'deref'):
                 a = a[1]
-            if a[0] == 'call' and a[1].startswith('nom::'):
+            if (a[0] == 'call' and a[1].startswith('nom::')) or (a[0] == 'agg' and a[1].startswith('Tuple')):
                 out.append((cs, a))
     return out
 
